@@ -13,7 +13,7 @@ func init() {
 	register(&Check{
 		ID:    "C10",
 		Level: "model_checking",
-		Rule: "every function specification of the bounded space (family A: one positional or one variadic parameter with each of 3 type constraints x all 16 flag combinations x 4 type-check callbacks x 4 implementation callbacks x optional result refinement; " +
+		Rule: "every function specification of the bounded space (family A: one positional or one variadic parameter with each of 3 type constraints x all 16 flag combinations x 6 type-check callbacks (string, dynamic, error, panic, list(dynamic), object with a placeholder attribute) x 4 implementation callbacks (conforming, error, panic, non-conforming) x optional result refinement; " +
 			"family B: two positional parameters (+ optional variadic) with all 48x48 constraint/flag combinations) x every argument list of every length 0..n+2 over 10 argument kinds (conforming, non-conforming, null, null of dynamic type, typed unknown, DynamicVal, root-marked, deeply marked, marked unknown, nested unknown); " +
 			"the implementation's event trace (callback invocations with their arguments, final outcome) must be accepted by the reference automaton of DESIGN appendix C; states = distinct (automaton state, guard valuation) pairs reached; transitions = calls",
 		Assumptions: []string{
@@ -66,7 +66,47 @@ const (
 	cbDyn
 	cbErr
 	cbPanic
+	cbListDyn // list(dynamic): a compound return type with a placeholder inside
+	cbObjDyn  // object({a=string,b=dynamic})
+	cbKinds
 )
+
+// c10RetType is the type the type-check callback of kind tcb returns.
+func c10RetType(tcb int) cty.Type {
+	switch tcb {
+	case cbDyn:
+		return cty.DynamicPseudoType
+	case cbListDyn:
+		return cty.List(cty.DynamicPseudoType)
+	case cbObjDyn:
+		return cty.Object(map[string]cty.Type{"a": cty.String, "b": cty.DynamicPseudoType})
+	}
+	return cty.String
+}
+
+// c10ImplValue is what the implementation callback returns: a value conforming to the
+// checked return type, or (bad) one that does not conform to it unless that type is
+// the bare placeholder.
+func c10ImplValue(tcb int, bad bool) cty.Value {
+	switch tcb {
+	case cbListDyn:
+		if bad {
+			return cty.SetVal([]cty.Value{cty.StringVal("r")})
+		}
+		return cty.ListVal([]cty.Value{cty.StringVal("r")})
+	case cbObjDyn:
+		if bad {
+			return cty.ObjectVal(map[string]cty.Value{"a": cty.NumberIntVal(42), "b": cty.True})
+		}
+		return cty.ObjectVal(map[string]cty.Value{"a": cty.StringVal("r"), "b": cty.True})
+	}
+	if bad {
+		return cty.NumberIntVal(42)
+	}
+	return cty.StringVal("r")
+}
+
+func tcbFails(tcb int) bool { return tcb == cbErr || tcb == cbPanic }
 const (
 	implOK = iota
 	implErr
@@ -170,26 +210,24 @@ func buildFunc(fs fSpec, log *[]spyEvent) function.Function {
 	spec.Type = func(args []cty.Value) (cty.Type, error) {
 		*log = append(*log, spyEvent{"type", append([]cty.Value(nil), args...)})
 		switch fs.tcb {
-		case cbOK:
-			return cty.String, nil
-		case cbDyn:
-			return cty.DynamicPseudoType, nil
 		case cbErr:
 			return cty.NilType, errTypeCB
+		case cbPanic:
+			panic("type callback panics")
 		}
-		panic("type callback panics")
+		return c10RetType(fs.tcb), nil
 	}
 	spec.Impl = func(args []cty.Value, retType cty.Type) (cty.Value, error) {
 		*log = append(*log, spyEvent{"impl", append([]cty.Value(nil), args...)})
 		switch fs.icb {
 		case implOK:
-			return cty.StringVal("r"), nil
+			return c10ImplValue(fs.tcb, false), nil
 		case implErr:
 			return cty.NilVal, errImplCB
 		case implPanic:
 			panic("impl callback panics")
 		}
-		return cty.NumberIntVal(42), nil
+		return c10ImplValue(fs.tcb, true), nil
 	}
 	if fs.refine {
 		spec.RefineResult = func(b *cty.RefinementBuilder) *cty.RefinementBuilder { return b.NotNull() }
@@ -379,7 +417,7 @@ func c10Check(u *U, fs fSpec, args []cty.Value, kinds []int) {
 	}
 	if len(dynskip) > 0 {
 		state("S3-dynamic-short-circuit|" + fmt.Sprint(len(typeEv) > 0))
-		if len(typeEv) > 0 && fs.tcb != cbOK && fs.tcb != cbDyn {
+		if len(typeEv) > 0 && tcbFails(fs.tcb) {
 			// the type callback ran and failed: its failure is an acceptable outcome
 			if err == nil {
 				viol("type-failure-ignored", "type-check callback failed but the call succeeded")
@@ -439,8 +477,10 @@ func c10Check(u *U, fs fSpec, args []cty.Value, kinds []int) {
 			return
 		}
 		ru, _ := res.Unmark()
-		if !retDyn && !ru.Type().Equals(cty.String) {
-			viol("result-type", fmt.Sprintf("result %s does not have the checked return type string", goStr(res)))
+		if want := c10RetType(fs.tcb); !retDyn && !refConforms(tsOf(ru.Type()), tsOf(want)) {
+			viol("result-type", fmt.Sprintf("result %s does not conform to the checked return type %#v", goStr(res), want))
+		} else if !retDyn && !ru.IsKnown() && !ru.Type().Equals(want) {
+			viol("result-type", fmt.Sprintf("unknown result %s does not have the checked return type %#v", goStr(res), want))
 		}
 	}
 	if anyUnknownBlocked {
@@ -503,18 +543,18 @@ func c10Check(u *U, fs fSpec, args []cty.Value, kinds []int) {
 		} else {
 			state("S4-impl-nonconforming|")
 			if err == nil {
-				viol("nonconforming-returned", fmt.Sprintf("implementation returned a number for return type string and the call returned it: %s", goStr(res)))
+				viol("nonconforming-returned", fmt.Sprintf("implementation returned %s for return type %#v and the call returned it: %s", goStr(c10ImplValue(fs.tcb, true)), c10RetType(fs.tcb), goStr(res)))
 			}
 		}
 	default:
-		state(fmt.Sprintf("S5-result|dyn=%v refine=%v marks=%v", retDyn, fs.refine, len(expectMarks) > 0))
+		state(fmt.Sprintf("S5-result|dyn=%v refine=%v marks=%v", retDyn, fs.refine, len(expectMarks) > 0)+fmt.Sprint(fs.tcb))
 		if err != nil {
 			viol("result-error", fmt.Sprintf("everything succeeded but the call returned error %v", err))
 			return
 		}
 		ru, _ := res.UnmarkDeep()
-		if !rawEq(ru, cty.StringVal("r")) {
-			viol("result-value", fmt.Sprintf("implementation returned \"r\", the call returned %s", goStr(res)))
+		if !rawEq(ru, c10ImplValue(fs.tcb, false)) {
+			viol("result-value", fmt.Sprintf("implementation returned %s, the call returned %s", goStr(c10ImplValue(fs.tcb, false)), goStr(res)))
 		}
 		got := marksDeep(res)
 		for m := range expectMarks {
@@ -580,7 +620,7 @@ func runC10(c *Ctx) {
 	for _, p := range ps {
 		p := p
 		c.Unit(func(u *U) {
-			for tcb := 0; tcb < 4; tcb++ {
+			for tcb := 0; tcb < cbKinds; tcb++ {
 				for icb := 0; icb < 4; icb++ {
 					for _, rf := range []bool{false, true} {
 						fs := fSpec{params: []pSpec{p}, tcb: tcb, icb: icb, refine: rf}
@@ -591,7 +631,7 @@ func runC10(c *Ctx) {
 				}
 			}
 			if u.WantSample() {
-				u.Sample(map[string]string{"family": "A", "parameter": p.String(), "callbacks": "4x4x2", "arg_kinds": strings.Join(argKindNames, ",")})
+				u.Sample(map[string]string{"family": "A", "parameter": p.String(), "callbacks": "6x4x2", "arg_kinds": strings.Join(argKindNames, ",")})
 			}
 		})
 	}
@@ -621,7 +661,7 @@ func runC10(c *Ctx) {
 			p1, p2 := p1, p2
 			c.Unit(func(u *U) {
 				for _, vp := range varps {
-					for _, cb := range [][2]int{{cbOK, implOK}, {cbDyn, implBad}} {
+					for _, cb := range [][2]int{{cbOK, implOK}, {cbDyn, implBad}, {cbObjDyn, implBad}} {
 						fs := fSpec{params: []pSpec{p1, p2}, varp: vp, tcb: cb[0], icb: cb[1], refine: true}
 						maxLen := 3
 						argLists(fs, maxLen, kindsB, func(args []cty.Value, kinds []int) {
